@@ -29,6 +29,8 @@ type flowCase struct {
 	ExtraArg []string
 	Tweak    func(*pgen.Spec)
 	SlowOne  int // >0: one stage call (chosen by seed) finishes this many ms late
+	Rules     []pgen.Rule // probe behaviour rules (faults, delays) for this case
+	AutoRetry int         // --autoretry value
 	Timeout  time.Duration
 	Reattach bool // run mrp a second time on the completed pipestance and re-check outs/
 	Template int // 0 = random program, k>0 = pgen.Template(k-1)
@@ -89,6 +91,7 @@ func runFlowCase(c *vf.Ctx, fc *flowCase) *flowResult {
 		if fc.Template > pgen.NTemplates && len(s.LenChoices) == 0 {
 			s.LenChoices = []int{2, 3} // file skeletons: several forks each
 		}
+		s.Rules = append(s.Rules, fc.Rules...)
 		if fc.SlowOne > 0 {
 			if paths := vmon.StageCallPaths(p); len(paths) > 0 {
 				ks := paths
@@ -110,7 +113,7 @@ func runFlowCase(c *vf.Ctx, fc *flowCase) *flowResult {
 	if cores == 0 {
 		cores = 4
 	}
-	args := []string{"--vdrmode=" + fc.Vdr, fmt.Sprintf("--localcores=%d", cores), "--localmem=16", "--autoretry=0"}
+	args := []string{"--vdrmode=" + fc.Vdr, fmt.Sprintf("--localcores=%d", cores), "--localmem=16", fmt.Sprintf("--autoretry=%d", fc.AutoRetry)}
 	args = append(args, fc.ExtraArg...)
 	res.run = cs.Run(vrun.RunOpts{Race: fc.Race, Args: args, Seed: fc.Seed, Delays: fc.Delays, Inventory: true,
 		Timeout: pickTimeout(fc.Timeout), StallLoops: 25})
@@ -537,6 +540,19 @@ func init() {
 				cases = append(cases, &flowCase{Index: i, Seed: seed, Cfg: cfg, Vdr: modes[i%3],
 					DelayMs: []int{0, 80, 250}[(i/3)%3], Delays: hook[i%len(hook)], Race: !c.Quick() && i%4 == 0,
 					Template: fileTmplFor(i)})
+				if fc := cases[len(cases)-1]; fc.Template == pgen.NTemplates+8 {
+					// skeleton 7: a consumer that fails transiently and is retried
+					// must still find the producer's files
+					if fc.Vdr == "post" {
+						fc.Vdr = "rolling"
+					}
+					fc.AutoRetry = 2
+					fc.DelayMs = 0
+					fc.Rules = []pgen.Rule{
+						{JobPrefix: "TOP/CKILL/", Phase: "main", Attempt: 1, Fail: "kill_mrjob"},
+						{JobPrefix: "TOP/COK/", Phase: "main", DelayBeforeMs: 300},
+					}
+				}
 			}
 			return cases
 		},
